@@ -381,7 +381,8 @@ SPEC = {
              "half biased to retrying errors); events (target, consistency, error class, decision) and the result are "
              "compared exactly with the model's fiber; "
              "E6 = end to end: one seeded scenario (260 quick / 2500 thorough / 600 in search rounds; the first 14 are "
-             "fixed shapes: statement not idempotent / idempotent x profile with a speculative policy / without, first "
+             "fixed shapes: statement not idempotent / idempotent x profile with a speculative policy / without / with max_retry_count 0, plus a "
+             "non-idempotent request with a 100 ms client timeout whose Unavailable answer comes 65 ms in (the re-sent frame is unanswered at the timeout), first "
              "answer of every page delayed 300 ms and a success resp. Unavailable, through each of the 7 session APIs) = "
              "a mock cluster of 2-4 nodes (40 % with 2 or 3 shards per node and one connection per shard) + one real Session + 3-6 (quick) / 4-9 (thorough) logical requests through query_unpaged / "
              "execute_unpaged / batch / query_single_page / execute_single_page / query_iter / execute_iter (1-3 pages), "
